@@ -63,7 +63,8 @@ def build():
     C.helpers["timeout_pending"] = pending("timeout")
     C.helpers["window_pending"] = pending("ignore_hits_within_window")
 
-    C.trace_helpers = {"n_posts", "n_posts_total", "post_kw", "completions"}
+    C.trace_helpers = {"n_posts", "n_posts_total", "post_kw", "completions", "delayed_call_is_new",
+                       "delayed_call_args"}
 
     def emit_posts(*exprs):
         """contract-level emission of the posts a callee guarantees (so callers can use its trace clauses)"""
@@ -189,7 +190,9 @@ def build():
           extra_fields=dict(ignore_hits=Bool, hit_value=Int),
           invariants=[("direction is up or down (enum)",
                        "self.config['direction'] == 'up' or self.config['direction'] == 'down'"),
-                      ("hit window is ms >= 0", "self.config['multiple_hit_window'] >= 0")])
+                      ("hit window is ms >= 0", "self.config['multiple_hit_window'] >= 0"),
+                      ("hits are ignored only while the window delay that ends it is pending",
+                       "implies(self.ignore_hits, window_pending())")])
     GOAL = ("(ccv is not None and (nv >= ccv if self.config['direction'] == 'up' else nv <= ccv))")
     C.fn("Counter.check_complete", params=dict(count_complete_value=Opt(Int)), requires=[ST], result=Bool,
          lets={"ccv": "count_complete_value if count_complete_value is not None else "
@@ -232,6 +235,32 @@ def build():
                    "self.ignore_hits"], raises={})
     C.fn("Counter.stop_ignoring_hits", ensures=["self.ignore_hits == False"], modifies=["self.ignore_hits"],
          raises={})
+
+    # ------------------------------------------------------------------ delayed control events (device manager)
+    C.cls("MpfController", fields={})
+    C.cls("DeviceManager", file="mpf/core/device_manager.py", bases=["MpfController"], fields={})
+
+    def delayed_call_is_new(I):
+        """exactly one delay is added for the control event, under a fresh (uuid) name, so it can never replace a
+        delay that is already pending - every accepted count/step event keeps its own delayed call"""
+        adds = events_named(I, "delay.add")
+        others = [e for e in I.cur_trace() if e.name in ("delay.remove", "delay.clear")]
+        if len(adds) != 1 or others:
+            return VBool(False)
+        return VBool(not adds[0].args.get("computed_name") and str(adds[0].args["name"]).startswith("uuid#"))
+    C.helpers["delayed_call_is_new"] = delayed_call_is_new
+
+    def delayed_call_args(I, callback, ms):
+        adds = events_named(I, "delay.add")
+        if len(adds) != 1:
+            return VBool(False)
+        return VBool(z3.And(I.eq(adds[0].args["callback"], callback), I.eq(adds[0].args["ms"], ms)))
+    C.helpers["delayed_call_args"] = delayed_call_args
+    C.fn("DeviceManager._control_event_handler", params=dict(callback=Fn, ms_delay=Int, delay_mgr=DelayMgr),
+         ensures=[("a delayed control event gets its own delayed call (never replaces a pending one)",
+                   "delayed_call_is_new()"),
+                  ("for the configured delay and handler", "delayed_call_args(callback, ms_delay)")],
+         modifies=["delay_mgr.pending"], raises={})
 
     # ------------------------------------------------------------------ Sequence
     block("Sequence", Int, "0", dict(events=Seq(Str)))
